@@ -103,6 +103,13 @@ func zzAmplStep(svc zzUDPService, allow func(net.Addr) bool, payload []byte) {
 	if !zzSymbolic() {
 		// native twin (real x/time/rate limiter): after k earlier grants at most 4-k responses remain
 		// (each response must have consumed one of the four tokens: probe how many are left)
+		left2 := 0
+		for i := 0; i < zzBurst+1; i++ {
+			if allow(&net.UDPAddr{IP: ip2, Port: 3000 + i}) {
+				left2++
+			}
+		}
+		zzAssert(left2 == zzBurst-j, "one source's requests never use up another source's allowance")
 		left := 0
 		for i := 0; i < zzBurst+1; i++ {
 			if allow(&net.UDPAddr{IP: ip1, Port: 5000 + i}) {
